@@ -744,9 +744,23 @@ func vmHooks(c *Ctx, m *vmModel) Hooks {
 			// map update on Fields
 			if sel, isF := c.isBlockFields(ix.X); isF {
 				base := ""
+				var bases []string
 				for _, bv := range in.eval(st, sel.X) {
-					base = bv.v.String()
-					break
+					// a helper that picks the block may return different blocks on different paths: all of them
+					// are what may be written
+					b := bv.v.String()
+					dup := false
+					for _, x := range bases {
+						dup = dup || x == b
+					}
+					if !dup {
+						bases = append(bases, b)
+					}
+				}
+				if len(bases) == 1 {
+					base = bases[0]
+				} else if len(bases) > 1 {
+					base = "one of " + strings.Join(bases, " | ")
 				}
 				key := "?"
 				for _, kv := range in.eval(st, ix.Index) {
